@@ -46,3 +46,69 @@ Theorem C12_targets_follow_the_deficit : forall (D1 D2 : Q -> Q) (f : Q -> Q) (k
   q2 == k * q1 + c.
 Proof. exact sup_transfer. Qed.
 Print Assumptions C12_targets_follow_the_deficit.
+
+(* ---- the same invariances proved DIRECTLY ON THE MODEL of the algorithm (cpsum / rows_from / pta of model/Cascade.v),
+   with no Robust, lattice or well-formedness hypothesis: they are algebraic identities of the cascade and therefore hold
+   also on inputs where the cascade is not exact (narrow streams, finding D44). *)
+From OP Require Import gen.Consts proofs.InvarianceModel.
+
+(* order of the streams: the active-CP sum of an interval is the same reduced rational, *)
+Theorem C12_model_cpsum_order : forall w ss ss' up low, Permutation ss ss' -> cpsum w ss up low = cpsum w ss' up low.
+Proof. exact cpsum_perm. Qed.
+Print Assumptions C12_model_cpsum_order.
+(* hence the problem table on any grid is identical, cell by cell, in every column (T, dT, CP, dH, H_hot, H_cold, H_net), *)
+Theorem C12_model_table_order : forall w hot hot' cold cold' g, Permutation hot hot' -> Permutation cold cold' ->
+  pta w hot cold g = pta w hot' cold' g.
+Proof. exact pta_perm. Qed.
+Print Assumptions C12_model_table_order.
+(* the temperature grid built from the end points does not depend on the order either, so the whole stage
+   (create_problem_table_with_t_int + problem_table_algorithm) returns the identical table and the identical targets. *)
+Theorem C12_model_grid_order : forall es es', Permutation es es' -> grid_of es = grid_of es'.
+Proof. exact grid_of_perm. Qed.
+Print Assumptions C12_model_grid_order.
+Theorem C12_model_stage_order : forall w hot hot' cold cold' extra extra',
+  Permutation hot hot' -> Permutation cold cold' -> Permutation extra extra' ->
+  stage_model w hot cold extra = stage_model w hot' cold' extra'.
+Proof. exact stage_model_perm. Qed.
+Print Assumptions C12_model_stage_order.
+Theorem C12_model_targets_order : forall w hot hot' cold cold' g, Permutation hot hot' -> Permutation cold cold' ->
+  Qh_of (pta w hot cold g) = Qh_of (pta w hot' cold' g) /\ Qc_of (pta w hot cold g) = Qc_of (pta w hot' cold' g)
+  /\ Qr_of (pta w hot cold g) = Qr_of (pta w hot' cold' g).
+Proof. exact targets_perm_model. Qed.
+Print Assumptions C12_model_targets_order.
+
+(* translation: all streams and all grid temperatures moved by d -- the table is the original one with d added to the
+   temperature column; every other column (widths, CP, dH, H_hot, H_cold, H_net) is the identical rational. *)
+Theorem C12_model_table_translation : forall w d hot cold g,
+  pta w (map (shiftv d) hot) (map (shiftv d) cold) (map (fun t => t + d) g) = shift_tab d (pta w hot cold g).
+Proof. exact pta_shift. Qed.
+Print Assumptions C12_model_table_translation.
+Theorem C12_model_targets_translation : forall w d hot cold g,
+  let p := pta w hot cold g in let p' := pta w (map (shiftv d) hot) (map (shiftv d) cold) (map (fun t => t + d) g) in
+  Qh_of p' = Qh_of p /\ Qc_of p' = Qc_of p /\ Qr_of p' = Qr_of p
+  /\ pT p' = map (fun t => t + d) (pT p) /\ pHh p' = pHh p /\ pHc p' = pHc p /\ pHn p' = pHn p.
+Proof. exact targets_shift_model. Qed.
+Print Assumptions C12_model_targets_translation.
+
+(* scaling: every heat-capacity flow rate multiplied by k >= 0 -- T and dT columns unchanged, every CP, dH and H column
+   multiplied by k cell by cell (scaledl k l l' : l' = k * l pointwise), hence the three targets multiplied by k. *)
+Theorem C12_model_table_scaling : forall w k, 0 <= k -> forall hot cold g,
+  let p := pta w hot cold g in let p' := pta w (map (scalev k) hot) (map (scalev k) cold) g in
+  pT p' = pT p /\ pdT p' = pdT p
+  /\ scaledl k (pCPh p) (pCPh p') /\ scaledl k (pdHh p) (pdHh p') /\ scaledl k (pHh p) (pHh p')
+  /\ scaledl k (pCPc p) (pCPc p') /\ scaledl k (pdHc p) (pdHc p') /\ scaledl k (pHc p) (pHc p')
+  /\ scaledl k (pCPn p) (pCPn p') /\ scaledl k (pdHn p) (pdHn p') /\ scaledl k (pHn p) (pHn p').
+Proof. exact pta_scale. Qed.
+Print Assumptions C12_model_table_scaling.
+Theorem C12_model_targets_scaling : forall w k, 0 <= k -> forall hot cold g,
+  let p := pta w hot cold g in let p' := pta w (map (scalev k) hot) (map (scalev k) cold) g in
+  Qh_of p' == k * Qh_of p /\ Qc_of p' == k * Qc_of p /\ Qr_of p' == k * Qr_of p.
+Proof. exact targets_scale_model. Qed.
+Print Assumptions C12_model_targets_scaling.
+(* the grid only reads temperatures, so the same holds for the whole stage *)
+Theorem C12_model_stage_scaling : forall w k hot cold extra, 0 <= k ->
+  let p := stage_model w hot cold extra in let p' := stage_model w (map (scalev k) hot) (map (scalev k) cold) extra in
+  pT p' = pT p /\ scaledl k (pHh p) (pHh p') /\ scaledl k (pHc p) (pHc p') /\ scaledl k (pHn p) (pHn p')
+  /\ Qh_of p' == k * Qh_of p /\ Qc_of p' == k * Qc_of p /\ Qr_of p' == k * Qr_of p.
+Proof. exact stage_scale_model. Qed.
+Print Assumptions C12_model_stage_scaling.
